@@ -89,8 +89,8 @@ pub fn run(tier: Tier, seed: u64) -> i32 {
     let mut sigs_vout = sigs.clone();
     sigs_vout.push(Sig::out("V_out", 4));
     // -8 and 300 do not fit the 4-bit outputs: a virtual signal is computed from what the driver returned
-    let vals: Vec<V> = tier.pick(vec![V::Num(0), V::Num(1), V::Num(-8), V::Z], vec![V::Num(0), V::Num(1), V::Num(2), V::Num(-8), V::Num(300), V::Z, V::X]);
-    let rvals: Vec<V> = tier.pick(vec![V::Num(0), V::Num(1), V::Num(-8), V::X], vals.clone());
+    let vals: Vec<V> = tier.pick(vec![V::Num(0), V::Num(1), V::Num(-8), V::Z], vec![V::Num(0), V::Num(1), V::Num(2), V::Num(-8), V::Z, V::X]);
+    let rvals: Vec<V> = tier.pick(vec![V::Num(0), V::Num(1), V::Num(-8), V::X], vec![V::Num(0), V::Num(1), V::Num(300), V::Z, V::X]);
     let mut menu = vec![];
     for &a in &vals {
         for &b in &rvals {
@@ -232,7 +232,7 @@ pub fn run(tier: Tier, seed: u64) -> i32 {
         id: "C14",
         tier,
         seed,
-        rule: "explicit-state BFS (stateright): every declaration set (V in {none, Q+1, Q*2+R, 7, (Q<<60), ite(R,Q,7)+ite(0,1,R)} x W in {none, !R, Q=R, Q&R, Q*(R<<Q)}) x 5 placements (before, between, after the rows, inside a loop body, split) x 5 shadowing variants (none, let Q, rows inside loop(Q,2), let V, let R inside a loop) x 5 headers (virtual columns present / absent / reordered / a V_out column of a real output) that bind; five source rows incl. a repeated row and a clock row; every output-reading call answers (Q,R) in {0,1,-8,Z} x {0,1,-8,X} (quick) / {0,1,2,-8,300,Z,X}^2 (thorough) so every pair of consecutive answers is a transition; the caller carries on after an error item; distinct_nontrivial = unique states".into(),
+        rule: "explicit-state BFS (stateright): every declaration set (V in {none, Q+1, Q*2+R, 7, (Q<<60), ite(R,Q,7)+ite(0,1,R)} x W in {none, !R, Q=R, Q&R, Q*(R<<Q)}) x 5 placements (before, between, after the rows, inside a loop body, split) x 5 shadowing variants (none, let Q, rows inside loop(Q,2), let V, let R inside a loop) x 5 headers (virtual columns present / absent / reordered / a V_out column of a real output) that bind; five source rows incl. a repeated row and a clock row; every output-reading call answers (Q,R) in {0,1,-8,Z} x {0,1,-8,X} (quick) / {0,1,2,-8,Z,X} x {0,1,300,Z,X} (thorough) so every pair of consecutive answers is a transition; the caller carries on after an error item; distinct_nontrivial = unique states".into(),
         assumptions: vec![
             "reference interpreter evaluates each declaration over the answer of the same call with no variables visible; virtual entries are matched by name (their mutual order is C15's)".into(),
         ],
